@@ -5,10 +5,11 @@
     computed by each __init__.
 
     Main theorem (induction over all nestings): for a well-formed expression (positive
-    scales, inner functionals of a Loss have the capability the Loss relies on), whenever
-    [gen_has_prox e = true], [gen_prox e lam v] returns a point that is IsProx of [deval e];
-    whenever the flag is false the call raises.  The two hypotheses of well-formedness are
-    exactly where the flags of the unchanged code are not truthful (Findings/C08_flags.v). *)
+    scales; the operator tagged Identity is the identity map; the SquaredL2Loss solver solves
+    the system it is handed), whenever [gen_has_prox e = true], [gen_prox e lam v] returns a
+    point that is IsProx of [deval e]; whenever the flag is false the call raises.  Positivity
+    of the scales is the one hypothesis where the flag of the unchanged code is not truthful
+    (Findings/C08_flags.v). *)
 From Coq Require Import Reals Lra Psatz Bool List.
 From SV Require Import Base.Num Base.InnerSpace Prox.ProxTheory C02.Basics C02.Norms C02.Losses C08.WLS.
 Import ListNotations.
@@ -80,7 +81,7 @@ Fixpoint gen_has_eval {S} (e : fexpr S) : bool :=
   | SepNil => true
   | SepCons _ _ e1 e2 => gen_has_eval e1 && gen_has_eval e2 (* all(fi.has_eval) *)
   | Sum _ e1 e2 => gen_has_eval e1 && gen_has_eval e2
-  | LossOf _ _ _ _ _ _ => true                             (* Loss: self.has_eval = True *)
+  | LossOf _ _ _ f _ _ => gen_has_eval f                   (* True if f is None else bool(f.has_eval) *)
   | LossNone _ _ _ _ _ => true
   | SqL2Loss _ _ _ _ _ _ _ _ _ => true
   end.
@@ -91,7 +92,8 @@ Fixpoint gen_has_prox {S} (e : fexpr S) : bool :=
   | SepNil => true
   | SepCons _ _ e1 e2 => gen_has_prox e1 && gen_has_prox e2
   | Sum _ _ _ => false                                     (* FunctionalSum.has_prox = False *)
-  | LossOf _ cls _ _ _ _ => is_identity cls                (* f is not None and A is Identity *)
+  | LossOf _ cls _ f _ _ => gen_has_prox f && is_identity cls
+                                       (* f is not None and f.has_prox and isinstance(A, Identity) *)
   | LossNone _ _ _ _ _ => false
   | SqL2Loss _ _ cls _ _ _ _ _ _ => is_linop cls           (* isinstance(A, LinearOperator) *)
   end.
@@ -120,8 +122,9 @@ Fixpoint gen_prox {S} (e : fexpr S) : R -> @E S -> option (@E S) :=
       match gen_prox e1 lam (fst v), gen_prox e2 lam (snd v) with
       | Some p1, Some p2 => Some (p1, p2) | _, _ => None end
   | Sum _ _ _ => fun _ _ => None
-  | LossOf _ cls _ f y c => fun lam v =>                    (* f.prox(v - y, scale*lam) + y *)
-      if is_identity cls then option_map (fun q => vadd q y) (gen_prox f (c * lam) (vsub v y)) else None
+  | LossOf _ cls _ f y c => fun lam v =>    (* if not self.has_prox: raise; f.prox(v - y, scale*lam) + y *)
+      if gen_has_prox f && is_identity cls
+      then option_map (fun q => vadd q y) (gen_prox f (c * lam) (vsub v y)) else None
   | LossNone _ _ _ _ _ => fun _ _ => None
   | SqL2Loss _ _ cls _ _ _ _ _ sol => fun lam v => if is_linop cls then Some (sol lam v) else None
   end.
@@ -135,7 +138,7 @@ Fixpoint wf {S} (e : fexpr S) : Prop :=
   | SepCons _ _ e1 e2 => wf e1 /\ wf e2
   | Sum _ e1 e2 => wf e1 /\ wf e2
   | LossOf _ cls A f _ c =>
-      0 < c /\ wf f /\ (is_identity cls = true -> (forall x, A x = x) /\ gen_has_prox f = true)
+      0 < c /\ wf f /\ (is_identity cls = true -> forall x, A x = x)
   | LossNone _ _ _ _ _ => True
   | SqL2Loss _ _ cls A B W y c sol =>
       0 <= c /\ (is_linop cls = true ->
@@ -163,7 +166,8 @@ Proof.
     cbn [fst snd]. rewrite E1, E2. eexists; split; [reflexivity|].
     now apply (prox_separable S1 S2).
   - (* Sum *) discriminate.
-  - (* LossOf *) destruct Hwf as [Hc [Hwf Hid]]. rewrite Hflag. destruct (Hid Hflag) as [HA Hf].
+  - (* LossOf *) destruct Hwf as [Hc [Hwf Hid]]. rewrite Hflag.
+    apply andb_true_iff in Hflag as [Hf Hcls]. pose proof (Hid Hcls) as HA.
     destruct (IHf Hwf Hf (c * lam) (vsub v y) ltac:(nra)) as [q [Eq Pq]].
     rewrite Eq. cbn [option_map]. eexists; split; [reflexivity|].
     pose proof (loss_translate_prox (ddom f) (deval f) c y lam v q Pq) as H.
@@ -192,7 +196,8 @@ Proof.
   - now rewrite Hflag.
 Qed.
 
-(** ** has_eval *)
+(** ** has_eval.  The only hypothesis left: the expression contains no abstract Loss(y, f=None)
+    (documented: "__call__ and prox must be defined in a derived class"; its has_eval is True) *)
 Fixpoint wf_eval {S} (e : fexpr S) : Prop :=
   match e with
   | Base _ _ => True
@@ -200,8 +205,8 @@ Fixpoint wf_eval {S} (e : fexpr S) : Prop :=
   | SepNil => True
   | SepCons _ _ e1 e2 => wf_eval e1 /\ wf_eval e2
   | Sum _ e1 e2 => wf_eval e1 /\ wf_eval e2
-  | LossOf _ _ _ f _ _ => wf_eval f /\ gen_has_eval f = true   (* Loss assumes f can be evaluated *)
-  | LossNone _ _ _ _ _ => False                                (* __call__ must be overridden *)
+  | LossOf _ _ _ f _ _ => wf_eval f
+  | LossNone _ _ _ _ _ => False
   | SqL2Loss _ _ _ _ _ _ _ _ _ => True
   end.
 
@@ -215,7 +220,7 @@ Proof.
     now rewrite (IHe1 H1 F1), (IHe2 H2 F2).
   - destruct Hwf as [H1 H2]. apply andb_true_iff in Hflag as [F1 F2].
     now rewrite (IHe1 H1 F1), (IHe2 H2 F2).
-  - destruct Hwf as [H1 H2]. now rewrite (IHf H1 H2).
+  - now rewrite (IHf Hwf Hflag).
   - contradiction.
 Qed.
 
@@ -231,6 +236,7 @@ Proof.
   - apply andb_false_iff in Hflag as [F|F].
     + now rewrite (IHe1 F).
     + rewrite (IHe2 F). now destruct (gen_eval e1 x).
+  - now rewrite (IHf Hflag).
 Qed.
 
 (** ** Flags of the loss classes by finite case analysis over the forward-operator classes *)
